@@ -171,6 +171,15 @@ def run_check(P, pid, tier, seed, t0, a):
 
     known = load_known(pid)
 
+    # ---------------------------------------------------------------- native f32/f64 checks
+    nres = None
+    if hasattr(P, "native_args"):
+        nres = run_native(P, pid, tier, seed, known)
+        log(f"[{pid}] N: {nres['evaluations']} native evaluations, {len(nres['fails'])} failing checks, "
+            f"{len(nres['known'])} known findings")
+        for kf in nres["known"]:
+            print(f"KNOWN-FINDING: property={pid} {kf}")
+
     def is_known(case):
         for e in known:
             if e.get("status") != "known":
@@ -193,6 +202,12 @@ def run_check(P, pid, tier, seed, t0, a):
                                              "clause": c.op, "note": "property clause evaluated on the "
                                              "implementation is not satisfied on this input"})
         violations.append((path, False))
+
+    if nres:
+        for (name, desc) in nres["fails"]:
+            path = write_replay(pid, "native", {"check": name, "first_failing_input": desc,
+                                                "note": "native f32/f64 check failed on the implementation"})
+            violations.append((path, False))
 
     broken_corr = []
     if dres.disagreements:
@@ -234,8 +249,36 @@ def run_check(P, pid, tier, seed, t0, a):
     for (path, nofail) in violations:
         print(f"VIOLATION property={pid} replay={path}" + (" no-failing-input-found" if nofail else ""))
 
-    write_evidence(P, pid, tier, seed, t0, thms, dres, ores, tres, len(violations), notes)
+    write_evidence(P, pid, tier, seed, t0, thms, dres, ores, tres, len(violations), notes, nres)
     return 1 if violations else 0
+
+
+def run_native(P, pid, tier, seed, known):
+    p = core.subprocess.run([core.BIN_IMPL] + P.native_args(tier, seed), stdout=core.subprocess.PIPE,
+                            stderr=core.subprocess.PIPE, text=True, timeout=3000)
+    if p.returncode != 0:
+        raise MachineryError(f"native check failed to run: {p.stderr[-2000:]}")
+    res = {"evaluations": 0, "fails": [], "known": [], "checks": {}, "exhaustive": None}
+    knames = {e.get("probe"): e for e in known if e.get("status") == "known" and e.get("probe")}
+    for line in p.stdout.split("\n"):
+        t = line.split(" ")
+        if t[0] == "native" and len(t) >= 3 and t[2].startswith("n="):
+            n = int(t[2][2:])
+            f = int(t[3][6:])
+            res["evaluations"] += n
+            res["checks"][t[1]] = {"n": n, "fails": f}
+            if f:
+                res["fails"].append((t[1], line.split(" first=", 1)[1] if " first=" in line else ""))
+        elif t[0] == "native" and "exhaustive" in t[1]:
+            res["exhaustive"] = line
+        elif t[0] == "probe":
+            ok = line.rstrip().endswith("ok=true")
+            if not ok:
+                if t[1] in knames:
+                    res["known"].append(knames[t[1]].get("what", line))
+                else:
+                    res["fails"].append((t[1], line))
+    return res
 
 
 def describe_corr(b):
@@ -245,7 +288,7 @@ def describe_corr(b):
     return {"correspondence": f"D:{c.op}", "input": c.line(), "impl": x[:400], "model": (y or "")[:400], "oracle_seed": sd}
 
 
-def write_evidence(P, pid, tier, seed, t0, thms, dres, ores, tres, nviol, notes):
+def write_evidence(P, pid, tier, seed, t0, thms, dres, ores, tres, nviol, notes, nres=None):
     os.makedirs(f"{core.VERIF}/evidence", exist_ok=True)
     n_thm = len(thms) if thms else 0
     n_trace = (tres["obligations"] if tres else 0)
@@ -289,6 +332,10 @@ def write_evidence(P, pid, tier, seed, t0, thms, dres, ores, tres, nviol, notes)
         })
     else:
         cov.update({"evaluations": 0, "distinct_nontrivial": 0, "samples": []})
+    if nres:
+        cov["native"] = {"evaluations": nres["evaluations"], "checks": nres["checks"],
+                         "exhaustive": nres["exhaustive"], "known_findings_reported": nres["known"]}
+        cov["evaluations"] = cov.get("evaluations", 0) + nres["evaluations"]
     if tres:
         cov["trace"] = {k: tres[k] for k in ("obligations", "discharged", "kernels", "failed")}
     ev = {
